@@ -1,13 +1,14 @@
 SPECIFICATION SimSpec
 CONSTANTS
   Comp = "map"
-  Ops = {"store", "setpair", "delete", "load", "check", "ensurestore", "ensureset", "swap", "ensuredefault", "get", "ensure", "len", "range", "keys", "values", "iterator", "marshal", "rangestop", "unmarshal", "config"}
+  Ops = {"store", "setpair", "delete", "load", "check", "ensurestore", "ensureset", "swap", "ensuredefault", "get", "ensure", "len", "range", "keys", "values", "iterator", "marshal", "rangestop", "unmarshal", "config", "gc"}
   V = {1, 2}
   K = {"a", "b", "c"}
   Depth = 30
   MaxCons = 3
   VKinds = {"slice", "bytesbuf", "bufpool"}
   AsIs = {}
+  Prefer = {"pool"}
 INVARIANT Inv
 PROPERTY ActionProps
 CHECK_DEADLOCK FALSE
